@@ -7,7 +7,7 @@ Obs == ndJsonDeserialize(IOEnv.TRACE_FILE)
 VARIABLE l
 RECURSIVE Count(_, _)
 Count(s, S) == IF s = <<>> THEN 0 ELSE (IF Head(s) \in S THEN 1 ELSE 0) + Count(Tail(s), S)
-Conforms(e) == FlatMap(Rse, e.w) = e.rse /\ Count(e.w, {"N", "X"}) = e.san_len
+Conforms(e) == FlatMap(Rse, e.w) = e.rse /\ Count(e.w, {"N", "X", "AST"}) = e.san_len
 TInit == l = 1 /\ Init
 TNext == /\ l <= Len(Obs)
          /\ ((~Conforms(Obs[l])) => TLCSet(1, Append(TLCGet(1), Obs[l].tid)))
